@@ -16,6 +16,7 @@ import (
 )
 
 var SlowLog io.Writer
+var SlowThreshold = 0.05
 var LastQueryFile = os.Getenv("GOSYM_LASTQ")
 
 type Result int
@@ -177,7 +178,7 @@ func (s *Solver) Check(asserts []*sym.Term, wantModel bool) (Result, map[*sym.Te
 	defer func() {
 		d := time.Since(t0).Seconds()
 		s.Stats.SolverSec += d
-		if SlowLog != nil && d > 0.05 {
+		if SlowLog != nil && d > SlowThreshold {
 			fmt.Fprintf(SlowLog, "; ---- %.3fs\n%s\n", d, q.Text)
 		}
 	}()
